@@ -182,6 +182,14 @@ def to_integer_or_infinity(value: JSValue) -> Union[int, float]:
     return n
 
 
+def relative_index(value: JSValue, length: int) -> int:
+    """Resolve a relative index argument (negative counts from the end), clamped to [0, length]."""
+    n = to_integer_or_infinity(value)
+    if n < 0:
+        return max(0, length + n)
+    return min(n, length)
+
+
 def number_to_string(value: float) -> str:
     """Number::toString for a finite double: the shortest digits that round-trip,
     laid out the ECMAScript way (exponent notation only outside [1e-6, 1e21))."""
